@@ -24,9 +24,11 @@ for name in sorted(os.listdir(os.path.join(V, 'seeded'))):
         rc, lines = -1, [str(e)]
     finally:
         shutil.rmtree(d, ignore_errors=True)
-    meta['detected_by'] = {'check': './check %s --tier quick' % pid, 'exit': rc, 'detected': rc == 1, 'first_lines': [l.split(' replay=')[0] for l in lines[:2]]}
+    meta['detected_by'] = {'check': './check %s --tier quick' % pid, 'exit': rc, 'detected': rc == 1, 'first_lines': [l.split(' replay=')[0] for l in lines[:2]],
+                           'failed': list(selftest.LAST_SIGNATURES)[:8]}
     json.dump(meta, open(mp, 'w'), indent=1, ensure_ascii=False)
-    rows.append((name, pid, 'DETECTED' if rc == 1 else 'exit %d' % rc, (meta.get('summary') or '')[:110]))
+    rows.append((name, pid, ('DETECTED' if rc == 1 else 'exit %d' % rc) + ' — ' + '; '.join(x.replace('obligation:', '').split('::')[-1] for x in selftest.LAST_SIGNATURES[:4] if x),
+                 (meta.get('summary') or '')[:110]))
     print(rows[-1], flush=True)
 if not only:
     with open(os.path.join(V, 'seeded', 'RESULTS.md'), 'w') as f:
